@@ -15,6 +15,8 @@ On(s, e) ==
          LET solo == Sc.solo[e.op] IN
          [st |-> [s EXCEPT !.rets = @ + 1],
           cl |-> << <<"operation_never_finished", e.kind # "stuck">>,
+                    \* every operation of the catalogue succeeds on a healthy agent; a baseline that fails was disturbed by clients used earlier on this loop
+                    <<"fails_even_alone_after_other_clients_ran:" \o solo.result, solo.kind = "result">>,
                     <<"exception_under_interleaving:" \o e.result, e.kind = solo.kind \/ e.kind # "exc">>,
                     <<"result_differs_from_solo", e.kind = solo.kind /\ e.result = solo.result>> >>]
     [] OTHER -> [st |-> s, cl |-> << <<"MACHINERY_unknown_event", FALSE>> >>]
